@@ -23,7 +23,7 @@ Inductive effect :=
 | ECallUnknown (f : string)
 | EDeclGlobal (n : string).                  (* global / nonlocal declaration *)
 
-Record fn_summary := { fn_name : string; fn_effects : list effect }.
+Record fn_summary := { fn_name : string; fn_method : string; fn_private : bool; fn_effects : list effect }.
 
 Definition str_in (s : string) (l : list string) : bool := existsb (String.eqb s) l.
 
@@ -45,16 +45,32 @@ Definition entropy_users : list string :=
 
 Definition is_self (o : owner) : bool := match o with OSelf => true | _ => false end.
 
-Definition effect_ok (fname : string) (e : effect) : bool :=
-  let mut := str_in fname mutators in
+Definition writes_self (f : fn_summary) : bool :=
+  existsb (fun e => match e with EWrite OSelf => true | _ => false end) (fn_effects f).
+
+(* Private helpers of the two mutable container classes that write to self are "derived mutators": allowed,
+   provided their callers are mutators - which the rule on mutating method calls below enforces, because the
+   helper's bare name is added to the mutating method names.  KeyBlock has no derived mutators: everything on
+   its wrap / derive / MAC path must stay pure (those methods are reached through dispatch tables). *)
+Definition container_class (n : string) : bool :=
+  String.prefix "tr31.Blocks." n || String.prefix "tr31.Header." n.
+Definition derived (fs : list fn_summary) : list fn_summary :=
+  filter (fun f => fn_private f && writes_self f && container_class (fn_name f) &&
+                   negb (str_in (fn_name f) mutators)) fs.
+Definition all_mutators (fs : list fn_summary) : list string := mutators ++ map fn_name (derived fs).
+Definition all_mutating_methods (fs : list fn_summary) : list string :=
+  mutating_methods ++ map fn_method (derived fs).
+
+Definition effect_ok (muts meths : list string) (fname : string) (e : effect) : bool :=
+  let mut := str_in fname muts in
   match e with
   | EWrite OLocal | EWrite OFresh => true
   | EWrite OSelf => mut
   | EWrite (OParam _) | EWrite (OModule _) | EWrite (OUnknown _) => false
   | ECallMethod OFresh _ | ECallMethod OLocal _ => true
-  | ECallMethod OSelf m => mut || negb (str_in m mutating_methods)
-  | ECallMethod (OParam _) m => negb (str_in m mutating_methods)
-  | ECallMethod (OModule _) m => negb (str_in m mutating_methods)
+  | ECallMethod OSelf m => mut || negb (str_in m meths)
+  | ECallMethod (OParam _) m => negb (str_in m meths)
+  | ECallMethod (OModule _) m => negb (str_in m meths)
   | ECallMethod (OUnknown _) _ => false
   | ECallPsec _ | ECallPure _ => true
   | ECallEntropy _ => str_in fname entropy_users
@@ -62,8 +78,10 @@ Definition effect_ok (fname : string) (e : effect) : bool :=
   | EDeclGlobal _ => false
   end.
 
-Definition fn_ok (f : fn_summary) : bool := forallb (effect_ok (fn_name f)) (fn_effects f).
-Definition policy_ok (fs : list fn_summary) : bool := forallb fn_ok fs.
+Definition fn_ok (muts meths : list string) (f : fn_summary) : bool :=
+  forallb (effect_ok muts meths (fn_name f)) (fn_effects f).
+Definition policy_ok (fs : list fn_summary) : bool :=
+  forallb (fn_ok (all_mutators fs) (all_mutating_methods fs)) fs.
 
 (* every function the deterministic public API is made of must be summarised *)
 Definition required : list string :=
@@ -82,15 +100,14 @@ Definition covers (fs : list fn_summary) : bool :=
 
 Definition tree_ok (fs : list fn_summary) : bool := policy_ok fs && covers fs.
 
-(* what the policy gives: a function that is not a declared mutator has no
-   write to self, to a parameter or to module/class state, and calls no
-   mutating method on them *)
+(* what the policy gives: a function that is neither a declared nor a derived mutator has no write to self, to a
+   parameter or to module/class state, and calls no mutating method on them *)
 Lemma policy_non_mutator fs f e :
-  policy_ok fs = true -> In f fs -> In e (fn_effects f) -> str_in (fn_name f) mutators = false ->
+  policy_ok fs = true -> In f fs -> In e (fn_effects f) -> str_in (fn_name f) (all_mutators fs) = false ->
   match e with
   | EWrite OSelf | EWrite (OParam _) | EWrite (OModule _) | EWrite (OUnknown _) => False
   | ECallMethod OSelf m | ECallMethod (OParam _) m | ECallMethod (OModule _) m =>
-      str_in m mutating_methods = false
+      str_in m (all_mutating_methods fs) = false
   | ECallMethod (OUnknown _) _ | ECallUnknown _ | EDeclGlobal _ => False
   | _ => True
   end.
@@ -103,3 +120,4 @@ Proof.
   - destruct o; try exact I; try discriminate;
       cbn [orb] in P; apply negb_true_iff in P; exact P.
 Qed.
+
